@@ -241,6 +241,61 @@ def has_chain(prog):
         any(in_stmt(a) for a in prog['begin'] + prog['end'])
 
 
+# ------------------------------------------------------------------ operator expressions on tokens (grouping)
+
+LVL = {'||': 1, '&&': 2, '==': 3, '!=': 3, '>': 3, '<': 3, '>=': 3, '<=': 3, '+': 4, '-': 4, '*': 5, '/': 5}
+OPNAME = {'||': 'OR', '&&': 'AND', '==': 'EQ', '!=': 'NEQ', '>': 'LARGER', '<': 'SMALLER', '>=': 'LARGER_EQUAL', '<=': 'SMALLER_EQUAL',
+          '+': 'ADD', '-': 'SUB', '*': 'MUL', '/': 'DIV'}
+
+
+def gen_tree(r, d):
+    """('a', token) | ('neg', t) | ('bin', op, t, t)"""
+    x = r.random()
+    if d <= 0 or x < 0.25:
+        k = r.random()
+        if k < 0.4:
+            return ('a', ['i', r.randint(0, 99)])
+        if k < 0.9:
+            return ('a', ['y', r.choice(['x', 'y', 'top.cnt', 'INDEX', 'a_b', 'sig.q'])])
+        return ('a', ['s', r.choice(['k', 'two words', ''])])
+    if x < 0.33:
+        return ('neg', gen_tree(r, d - 1))
+    return ('bin', r.choice(list(LVL)), gen_tree(r, d - 1), gen_tree(r, d - 1))
+
+
+def tree_tokens(t, lvl, r=None):
+    """the text of the tree with exactly the parentheses the stated grouping needs (plus, with r, a few redundant ones)"""
+    if t[0] == 'a':
+        toks = [t[1]]
+        need = False
+    elif t[0] == 'neg':
+        toks = [['p', '!']] + tree_tokens(t[1], 6, r)
+        need = False
+    else:
+        q = LVL[t[1]]
+        toks = tree_tokens(t[2], 4 if q == 3 else q, r) + [['p', t[1]]] + tree_tokens(t[3], q + 1, r)
+        need = q < lvl
+    if need or (r is not None and r.random() < 0.12):
+        toks = [['p', '(']] + toks + [['p', ')']]
+    return toks
+
+
+def tree_form(t):
+    from wal.ast_defs import Operator, Symbol
+    if t[0] == 'a':
+        return t[1][1] if t[1][0] in ('i', 's') else Symbol(t[1][1])
+    if t[0] == 'neg':
+        return [Operator.NOT, tree_form(t[1])]
+    return [Operator[OPNAME[t[1]]], tree_form(t[2]), tree_form(t[3])]
+
+
+BAD_TOKENS = [
+    [['y', 'a'], ['p', '<'], ['y', 'b'], ['p', '<'], ['y', 'c']], [['y', 'a'], ['p', '+']], [['p', '('], ['y', 'a'], ['p', '+'], ['y', 'b']],
+    [['y', 'a'], ['p', '+'], ['p', '*'], ['y', 'b']], [['y', 'a'], ['p', '+'], ['y', 'b'], ['p', ')']], [['p', '!']],
+    [['y', 'a'], ['p', '||'], ['p', '&&'], ['y', 'b']], [['y', 'a'], ['p', '=='], ['y', 'b'], ['p', '!='], ['i', 1]], [['p', '('], ['p', ')']],
+]
+
+
 class C20(framework.PropertyCheck):
     pid = 'C20'
     quick_cases = 100
@@ -250,11 +305,22 @@ class C20(framework.PropertyCheck):
             'generated trace (6 indices): the program emitted by parse_wawk + AST.emit is evaluated by Wal and its stdout compared with a direct '
             'AWK-style reference evaluation (BEGIN once, per index the statements in source order whose conditions all hold, END once); the text '
             'written as by wawk -o (wal_str per form) is read back with the WAL reader and compared with the emitted forms; non-trivial = a '
-            'statement whose conditions hold at some but not all indices, or an operator chain')
+            'statement whose conditions hold at some but not all indices, or an operator chain; every fourth case is a batch of 8 operator expressions '
+            '(all twelve binary operators, !, depth <= 4, atoms: integers, symbols, strings) written with exactly the necessary parentheses (half of '
+            'them with redundant ones added): parse_wawk against the generating tree and against the Lean token-level parser; a few ill-formed '
+            'operator texts (chained comparison, dangling operator, unbalanced parenthesis) must be rejected by both')
 
     def cases(self, rng, tier, n):
         for i in range(n):
             g = G(random.Random(rng.randrange(1 << 30)))
+            if i % 4 == 1:
+                # operator expressions alone, several per program: the tree is the stated reading of its own text
+                trees = [gen_tree(g.r, g.r.randint(1, 4)) for _ in range(8)]
+                yield {'kind': 'expr', 'trees': _tolist(trees), 'seed': rng.randrange(1 << 30)}
+                continue
+            if i % 16 == 3:
+                yield {'kind': 'badexpr', 'toks': g.r.choice(BAD_TOKENS)}
+                continue
             vars_ = ['x', 'y']
             prog = {'begin': [('assign', 'x', ('n', g.r.randint(0, 3))), ('assign', 'y', ('n', 1)), ('aset', 'arr', ('s', 'k0'), ('n', 0))] + [g.stmt(1, vars_) for _ in range(g.r.randint(0, 1))],
                     'end': [('print', 'end ', ('bin', '+', ('v', 'x'), ('v', 'y')))] + [g.stmt(0, vars_) for _ in range(g.r.randint(0, 1))],
@@ -281,7 +347,15 @@ class C20(framework.PropertyCheck):
     def trace(self, case):
         return gen_trace.simple_vcd(random.Random(case['seed']), N, sigs=gen_expr.SIGS, xz_names=())
 
+    def expr_tokens(self, case):
+        r = random.Random(case['seed'])
+        return [tree_tokens(_totree(t), 1, r if k % 2 else None) for k, t in enumerate(case['trees'])]
+
     def steps(self, case):
+        if case.get('kind') == 'expr':
+            return [('wawkparse', self.expr_tokens(case))]
+        if case.get('kind') == 'badexpr':
+            return [('wawkparse', [case['toks']])]
         # correspondence: the model's emit against AST.emit, then the emitted forms evaluated by the model's
         # evaluator against Wal.eval (value, printed text and final state of every form)
         from . import session
@@ -302,6 +376,21 @@ class C20(framework.PropertyCheck):
 
     def oracle(self, case, iobs):
         from . import session
+        if case.get('kind') == 'expr':
+            toks = self.expr_tokens(case)
+            want = ('ok', wire.canon([tree_form(_totree(t)) for t in case['trees']]))
+            got = iobs[0] if iobs else None
+            if got is None or got[0] != 'ok':
+                return {'what': 'operator expressions of the fragment were rejected', 'texts': [session.tok_text(t) for t in toks], 'got': got}
+            if _strip(got[1]) != _strip(want[1]):
+                bad = [k for k, (a, b) in enumerate(zip(_strip(got[1])[1], _strip(want[1])[1])) if a != b]
+                k = bad[0] if bad else 0
+                return {'what': 'an operator expression is not grouped left to right with * / over + - and && over ||', 'text': session.tok_text(toks[k]),
+                        'got': wire.show(got[1][2][k]) if hasattr(wire, 'show') else repr(got[1][2][k]),
+                        'want': repr(want[1][2][k])}
+            return None
+        if case.get('kind') == 'badexpr':
+            return None
         from wal.util import wal_str
         from wal.reader import read_wal_sexprs
         prog = _totuple(case['prog'])
@@ -412,6 +501,8 @@ class C20(framework.PropertyCheck):
         return True
 
     def classify(self, case):
+        if case.get('kind'):
+            return case['kind']
         return f'stmts{len(case["prog"]["stmts"])}'
 
 
@@ -433,6 +524,14 @@ def _totuple(x):
     if isinstance(x, dict):
         return {k: _totuple(v) for k, v in x.items()}
     return x
+
+
+def _totree(t):
+    if t[0] == 'a':
+        return ('a', t[1])
+    if t[0] == 'neg':
+        return ('neg', _totree(t[1]))
+    return ('bin', t[1], _totree(t[2]), _totree(t[3]))
 
 
 def _aslist(x):
